@@ -4,7 +4,7 @@ import time
 from concurrent.futures import ThreadPoolExecutor
 
 from checks import streams, servers
-from checks.common import swarm, exc_choice
+from checks.common import swarm, exc_choice, note_exc
 
 ID = 'C16'
 LEVEL = 'exploration'
@@ -241,6 +241,7 @@ def run(sim, sc):
 
 def _server_norm(x, y):
     if isinstance(y, BaseException):
+        note_exc(y)
         return [x, ['EXC', type(y).__name__, x]]
     return [x, servers.norm_value(y)]
 
@@ -251,6 +252,7 @@ def _collect_server_sync(it):
         for x, y in it:
             outs.append(_server_norm(x, y))
     except Exception as e:
+        note_exc(e)
         raised = [type(e).__name__, None]
     return outs, raised
 
@@ -261,5 +263,6 @@ async def _collect_server_async(ait):
         async for x, y in ait:
             outs.append(_server_norm(x, y))
     except Exception as e:
+        note_exc(e)
         raised = [type(e).__name__, None]
     return outs, raised
